@@ -124,6 +124,44 @@ def do_symbolic() -> int:
     return n
 
 
+def do_coreapi() -> list:
+    """Other code uses the public core API before any catalogue module is imported: coordinate systems of every
+    kind, the volume element and flux / circulation helpers on them, a few symbols and quantities.  What these calls
+    return is not judged here (C11-C13 do that); only that they ran is recorded."""
+    import sympy as sp
+    import symplyphysics as sy
+    from symplyphysics.core.coordinate_systems.coordinate_systems import CoordinateSystem
+    from symplyphysics.core.fields.vector_field import VectorField
+    from symplyphysics.core.fields import analysis
+    from symplyphysics.core.geometry.elements import volume_element_magnitude
+    ran = []
+    for t in CoordinateSystem.System:
+        for what, fn in (
+                ("volume_element", lambda cs: volume_element_magnitude(cs)),
+                ("flux_volume", lambda cs: analysis.flux_across_volume_boundary(VectorField(lambda point: [1, 0, 0], cs), (0, 1), (0, 1), (0, 1))),
+        ):
+            try:
+                with time_limit(30):
+                    fn(CoordinateSystem(t))
+                ran.append(f"{what}:{t.name}")
+            except HardTimeout:
+                pass
+            except Exception:  # pylint: disable=broad-except
+                pass
+    try:
+        with time_limit(30):
+            c = CoordinateSystem()
+            u = sp.Symbol("verif_u")
+            analysis.circulation_along_curve(VectorField(lambda point: [point.y, 0, point.x + point.z], c), [sp.cos(u), sp.sin(u)], (u, 0, sp.pi / 2))
+        ran.append("circulation:CARTESIAN")
+    except (HardTimeout, Exception):  # pylint: disable=broad-except
+        pass
+    for _ in range(3):
+        sy.Symbol("x")
+        sy.Quantity(1)
+    return ran
+
+
 def do_nextid(prefix: str, k: int) -> None:
     from symplyphysics.core.symbols.id_generator import next_id
     for _ in range(k):
@@ -600,6 +638,8 @@ def run(spec: dict) -> dict:
         kind = step[0]
         if kind == "thread":
             in_thread(step[1])
+        elif kind == "coreapi":
+            out["coreapi_calls"] = do_coreapi()
         elif kind == "symbolic":
             out["symbolic_wrappers_created"] = do_symbolic()
         elif kind == "create":
